@@ -206,6 +206,13 @@ def scope(res, pid, rng, tier):
             i = rng.randint(3, len(c))
             bad.append(c[:i] + rng.choice(ALPHA) + c[i:])                     # an extra alphabet character
     bad += ["", "$9$", "$9$abc", "$9$Qnet", "abcd", "$9$abcd\n", "$9$QnetF", "$9$a,bcdef", "$9$_net9pBcSe8"]
+    # characters that are letters / digits for Unicode-aware or case-insensitive matching but not in the alphabet, at every kind of position
+    # (salt character, filler, inside a group)
+    for plain, c in crypts[:3] + rng.sample(crypts, min(len(crypts), 6)):
+        if len(c) > 9:
+            for ch in "\u0130\u0131\u017f\u212a\u0660\u0966\uff21\uff41\u00b2\u2460":
+                for i in (3, 4, 5, len(c) - 1, len(c) // 2 + 1):
+                    bad.append(c[:i] + ch + c[i + 1:])
     for c in bad:
         r = dec_op(sess, c)
         res.nt(("dec-bad", len(c) % 11, c[-1:] in ALPHA))
